@@ -665,3 +665,215 @@ Proof.
       nia. }
     exists (mkLn i (i + psp)), (mkLn j (j + ssp)). split; [exact Hs|]. simpl. lia.
 Qed.
+
+(* ------------------------------------------------------------------ the phases *)
+Lemma foldM_total_count : forall A S (f : S -> A -> res S) (P : Z -> S -> Prop) l s0 k0,
+  P k0 s0 ->
+  (forall k s x, In x l -> k0 <= k < k0 + Z.of_nat (length l) -> P k s -> exists s', f s x = Ok s' /\ P (k + 1) s') ->
+  exists s, foldM f l s0 = Ok s /\ P (k0 + Z.of_nat (length l)) s.
+Proof.
+  induction l; intros s0 k0 H0 Hstep.
+  - exists s0. simpl. rewrite Z.add_0_r. auto.
+  - assert (Hk : k0 <= k0 < k0 + Z.of_nat (length (a :: l))) by (simpl length; lia).
+    destruct (Hstep k0 s0 a (or_introl eq_refl) Hk H0) as [s1 [E1 H1]].
+    destruct (IHl s1 (k0 + 1) H1) as [s [Es Hs]].
+    { intros k s x Hin Hk' Hp. apply Hstep; auto; [right; auto|simpl length; lia]. }
+    exists s. simpl. rewrite E1. cbn [bind]. split; auto.
+    replace (k0 + Z.pos (Pos.of_succ_nat (length l))) with (k0 + 1 + Z.of_nat (length l)) by lia. auto.
+Qed.
+
+Section Phases.
+  Variable children : list (Z * child).
+  Variables ecc erc : Z.
+  Variable m0 : matrix.
+  Hypothesis Hecc : 0 <= ecc <= 64.
+  Hypothesis Herc : 0 <= erc <= 64.
+  Hypothesis Hchildren : Forall (fun c => child_ok (snd c)) children.
+  Hypothesis Hfits : Forall (fun c => child_fits ecc erc m0 (snd c)) children.
+
+  Lemma child_facts : forall x m, In x children -> grows m0 m -> child_ok (snd x) /\ child_fits ecc erc m (snd x).
+  Proof.
+    intros x m Hin Hg. rewrite Forall_forall in Hchildren, Hfits. split; auto.
+    eapply child_fits_grows; eauto.
+  Qed.
+
+  Definition P12 (k : Z) (st : matrix * list item) : Prop := cap (fst st) k /\ grows m0 (fst st).
+
+  Lemma phase1_step_total : forall pax k st x, In x children -> phase1_filter x = true -> 0 <= k < 64 -> P12 k st ->
+    exists st', phase1_step ecc erc pax st x = Ok st' /\ P12 (k + 1) st'.
+  Proof.
+    intros pax k [m items] [i c] Hin Hf Hk [Hcap Hg]. simpl in *.
+    destruct (child_facts (i, c) m Hin Hg) as [Hc Hfit]. simpl in Hc, Hfit.
+    rewrite origin_zero_placement_total by auto. cbn [bind].
+    unfold phase1_filter in Hf. simpl in Hf. apply andb_true_iff in Hf. destruct Hf as [Hdr Hdc].
+    assert (Hda : forall a, is_definite (grid_placement c a) = true) by (intros [|]; auto).
+    destruct (fits_definite ecc erc m c pax Hecc Herc Hc Hfit (Hda pax)) as (ps & Hps & A1 & A2 & A3).
+    destruct (fits_definite ecc erc m c (other_axis pax) Hecc Herc Hc Hfit (Hda (other_axis pax))) as (ss & Hss & B1 & B2 & B3).
+    unfold place_definite_grid_item. rewrite !both_get_ozln, Hps, Hss. cbn [bind].
+    destruct (record_total m items i pax ps ss DefinitelyPlaced k Hcap Hk) as (m' & Hr & Hcap' & Hg' & _); try (destruct pax; simpl in *; lia).
+    rewrite Hr. eexists. split; [reflexivity|]. split; simpl; auto. eapply grows_trans; eauto.
+  Qed.
+
+  Lemma phase2_step_total : forall fl k st x, In x children ->
+    phase2_filter (primary_axis fl) (other_axis (primary_axis fl)) x = true -> 0 <= k < 64 -> P12 k st ->
+    exists st', phase2_step ecc erc fl st x = Ok st' /\ P12 (k + 1) st'.
+  Proof.
+    intros fl k [m items] [i c] Hin Hf Hk [Hcap Hg]. simpl in *.
+    destruct (child_facts (i, c) m Hin Hg) as [Hc Hfit]. simpl in Hc, Hfit.
+    rewrite origin_zero_placement_total by auto. cbn [bind].
+    unfold phase2_filter in Hf. simpl in Hf. apply andb_true_iff in Hf. destruct Hf as [Hd2 Hd1]. apply negb_true_iff in Hd1.
+    destruct (pdsa_total m ecc erc c fl k Hcap ltac:(lia) Hc Hecc Herc Hfit Hd2 Hd1) as (pp & sec & Hp & A1 & A2 & A3 & B1 & B2 & B3).
+    rewrite Hp. cbn [bind].
+    destruct (record_total m items i (primary_axis fl) pp sec AutoPlaced k Hcap Hk) as (m' & Hr & Hcap' & Hg' & _);
+      try (destruct (primary_axis fl); simpl in *; lia).
+    rewrite Hr. eexists. split; [reflexivity|]. split; simpl; auto. eapply grows_trans; eauto.
+  Qed.
+
+  Definition cursor_ok (fl : flow) (m : matrix) (gp : Z * Z) : Prop :=
+    - tc_neg (track_counts m (primary_axis fl)) <= fst gp <= endl (track_counts m (primary_axis fl)) /\
+    - tc_neg (track_counts m (other_axis (primary_axis fl))) <= snd gp <= endl (track_counts m (other_axis (primary_axis fl))).
+
+  Definition P4 (fl : flow) (k : Z) (st : matrix * list item * (Z * Z)) : Prop :=
+    cap (fst (fst st)) k /\ grows m0 (fst (fst st)) /\ cursor_ok fl (fst (fst st)) (snd st).
+
+  Lemma phase4_step_total : forall fl gs k st x, In x children ->
+    phase4_filter (other_axis (primary_axis fl)) x = true -> 0 <= k < 64 ->
+    (forall m, grows m0 m -> cap m (k + 1) -> cursor_ok fl m gs) ->
+    P4 fl k st ->
+    exists st', phase4_step ecc erc fl gs st x = Ok st' /\ P4 fl (k + 1) st'.
+  Proof.
+    intros fl gs k [[m items] [cp cs]] [i c] Hin Hf Hk Hgs (Hcap & Hg & Hcur). simpl in *.
+    destruct (child_facts (i, c) m Hin Hg) as [Hc Hfit]. simpl in Hc, Hfit.
+    rewrite origin_zero_placement_total by auto. cbn [bind].
+    unfold phase4_filter in Hf. simpl in Hf. apply negb_true_iff in Hf.
+    destruct Hcur as [Hcp Hcs]. simpl in Hcp, Hcs.
+    destruct (pipi_total m ecc erc c fl k cp cs Hcap ltac:(lia) Hc Hecc Herc Hfit Hf Hcp Hcs) as (ps & ss & Hp & A1 & A2 & A3 & B1 & B2 & B3).
+    rewrite Hp. cbn [bind].
+    destruct (record_total m items i (primary_axis fl) ps ss AutoPlaced k Hcap Hk) as (m' & Hr & Hcap' & Hg' & E1 & E2);
+      try (destruct (primary_axis fl); simpl in *; lia).
+    rewrite Hr. cbn [bind]. eexists. split; [reflexivity|]. unfold P4. simpl.
+    split; [auto|]. split; [eapply grows_trans; eauto|].
+    destruct (is_dense fl).
+    - apply Hgs; auto. eapply grows_trans; eauto.
+    - unfold cursor_ok. simpl. destruct Hg' as ((S1 & S2 & S3 & S4) & _).
+      destruct (primary_axis fl); simpl in *; unfold endl in *; lia.
+  Qed.
+End Phases.
+
+Lemma place_grid_items_total : forall children m0 fl,
+  0 <= tc_explicit (m_cols m0) <= 64 -> 0 <= tc_explicit (m_rows m0) <= 64 ->
+  Forall (fun c => child_ok (snd c)) children ->
+  Forall (fun c => child_fits (tc_explicit (m_cols m0)) (tc_explicit (m_rows m0)) m0 (snd c)) children ->
+  (length children <= 64)%nat -> cap m0 0 ->
+  exists m items, place_grid_items m0 children fl = Ok (m, items) /\ exists k, 0 <= k <= 64 /\ cap m k.
+Proof.
+  intros children m0 fl Hec Her Hch Hfit Hlen Hcap0. unfold place_grid_items. simpl.
+  set (ecc := tc_explicit (m_cols m0)) in *. set (erc := tc_explicit (m_rows m0)) in *. set (pax := primary_axis fl).
+  set (L1 := filter phase1_filter children). set (L2 := filter (phase2_filter pax (other_axis pax)) children).
+  set (L4 := filter (phase4_filter (other_axis pax)) children).
+  assert (Hn : (length L1 + length L2 + length L4 = length children)%nat).
+  { pose proof (Permutation_length (phases_partition children pax)) as Hp. rewrite !app_length in Hp. fold L1 L2 L4 in Hp. lia. }
+  (* phase 1 *)
+  destruct (foldM_total_count _ _ (phase1_step ecc erc pax) (P12 m0) L1 (m0, []) 0) as [st1 [E1 [C1 G1]]].
+  { split; simpl; [exact Hcap0|apply grows_refl]. }
+  { intros k s x Hin Hk Hp. apply filter_In in Hin. destruct Hin as [Hin Hf].
+    eapply phase1_step_total; eauto. lia. }
+  rewrite E1. cbn [bind].
+  (* phase 2 *)
+  destruct (foldM_total_count _ _ (phase2_step ecc erc fl) (P12 m0) L2 st1 (0 + Z.of_nat (length L1))) as [st2 [E2 [C2 G2]]].
+  { split; auto. }
+  { intros k s x Hin Hk Hp. apply filter_In in Hin. destruct Hin as [Hin Hf].
+    eapply phase2_step_total; eauto. lia. }
+  fold pax. rewrite E2. cbn [bind]. destruct st2 as [m2 items2]. simpl in C2, G2.
+  set (k2 := 0 + Z.of_nat (length L1) + Z.of_nat (length L2)) in *.
+  destruct (cap_bounds m2 k2 pax C2 ltac:(unfold k2; lia)) as ((?&?&?) & ? & ? & ?).
+  destruct (cap_bounds m2 k2 (other_axis pax) C2 ltac:(unfold k2; lia)) as ((?&?&?) & ? & ? & ?).
+  unfold i16_neg. rewrite !u16_as_i16_small by lia. rewrite !chk_i16_intro by lia. cbn [bind].
+  (* phase 4 *)
+  set (gs := (- tc_neg (track_counts m2 pax), - tc_neg (track_counts m2 (other_axis pax)))).
+  assert (Hgs : forall m k, grows m0 m -> cap m k -> 0 <= k <= 64 -> cursor_ok fl m gs).
+  { intros m k Hg Hc Hk. destruct Hg as ((S1 & S2 & S3 & S4) & _). destruct G2 as ((T1 & T2 & T3 & T4) & _).
+    destruct (cap_bounds m k pax Hc Hk) as (_ & _ & _ & ?). destruct (cap_bounds m k (other_axis pax) Hc Hk) as (_ & _ & _ & ?).
+    unfold cursor_ok, gs. fold pax. simpl. destruct pax; simpl in *; lia. }
+  destruct (foldM_total_count _ _ (phase4_step ecc erc fl gs) (P4 m0 fl) L4 (m2, items2, gs) k2) as [st4 [E4 [C4 _]]].
+  { split; [exact C2|]. split; [exact G2|]. simpl. eapply Hgs; eauto. unfold k2; lia. }
+  { intros k s x Hin Hk Hp. apply filter_In in Hin. destruct Hin as [Hin Hf].
+    eapply phase4_step_total; eauto; [unfold k2 in Hk; lia|].
+    intros m Hg Hc. eapply Hgs; eauto. unfold k2 in Hk; lia. }
+  rewrite E4. cbn [bind]. destruct st4 as [[m4 items4] gp4]. exists m4, items4. split; [reflexivity|].
+  exists (k2 + Z.of_nat (length L4)). split; [unfold k2; lia|exact C4].
+Qed.
+
+(* ------------------------------------------------------------------ the report and the whole run *)
+Lemma reported_line_total : forall tc l, tc_nonneg tc -> tlen tc <= 16000 -> - tc_neg tc <= l <= endl tc ->
+  exists v, reported_line tc l = Ok v.
+Proof.
+  intros tc l (Hn & He & Hp) Hl Hr. unfold tlen, endl in *. unfold reported_line, into_track_vec_index.
+  ok_steps.
+  destruct (Z.geb_spec l (- tc_neg tc)); [|lia]. cbn [bind]. ok_steps.
+  destruct (Z.leb_spec l (tc_explicit tc + tc_pos tc)); [|lia]. cbn [bind]. ok_steps.
+  rewrite i16_as_usize_small by lia. ok_steps. rewrite usize_as_u16_small by lia.
+  unfold to_one_indexed_grid_line. unfold u16_add. rewrite chk_u16_intro; [eauto|].
+  assert (0 <= 2 * (l + tc_neg tc) / 2 <= 32767) by (replace (2 * (l + tc_neg tc)) with ((l + tc_neg tc) * 2) by lia; rewrite Z.div_mul; lia).
+  lia.
+Qed.
+
+Lemma mapM_total : forall A B (f : A -> res B) l, Forall (fun x => exists y, f x = Ok y) l -> exists ys, mapM f l = Ok ys.
+Proof.
+  induction 1; simpl; [eauto|]. destruct H as [y Hy]. destruct IHForall as [ys Hys].
+  rewrite Hy, Hys. cbn [bind]. eauto.
+Qed.
+
+Lemma filter_len_le : forall A (f : A -> bool) l, (length (filter f l) <= length l)%nat.
+Proof. induction l; simpl; auto. destruct (f a); simpl; lia. Qed.
+
+Lemma in_flow_children_length : forall children, (length (in_flow_children children) <= length children)%nat.
+Proof.
+  intros. unfold in_flow_children. rewrite map_length.
+  eapply Nat.le_trans; [apply filter_len_le|].
+  assert (H : forall A (l : list A) s, length (enumerate_from s l) = length l) by (induction l; simpl; intros; auto).
+  rewrite H. auto.
+Qed.
+
+Theorem placement_total : forall ec er fl children, in_domain ec er children ->
+  exists o, grid_placement_run ec er fl children = Ok o.
+Proof.
+  intros ec er fl children (Hec & Her & Hlen & Hch). unfold grid_placement_run.
+  destruct (estimate_covers ec er (map snd children) Hec Her) as (cc & rc & Eest & C1 & C2 & C3 & C4 & R1 & R2 & R3 & R4 & Hfits).
+  { rewrite Forall_map. exact Hch. }
+  rewrite Eest. cbn [bind].
+  unfold with_track_counts. rewrite (tc_len_intro rc) by (auto; lia). rewrite (tc_len_intro cc) by (auto; lia). cbn [bind].
+  set (m0 := mkM (grid_new (tlen rc) (tlen cc)) cc rc).
+  assert (Hwf0 : wf m0).
+  { unfold wf, m0; simpl. repeat (split; [first [assumption | lia]|]).
+    apply grid_new_reg; unfold tc_nonneg, tlen in *; lia. }
+  assert (Hcap0 : cap m0 0).
+  { unfold cap, m0; simpl. split; [exact Hwf0|]. unfold tc_nonneg, tlen in *. lia. }
+  assert (Hin : forall x, In x (in_flow_children children) -> In (snd x) (map snd children)).
+  { intros [i c] Hx. apply in_flow_children_In in Hx. destruct Hx as [_ Hn]. apply nth_error_In in Hn.
+    apply in_map_iff. exists (InFlow, c). auto. }
+  destruct (place_grid_items_total (in_flow_children children) m0 fl) as (m & items & Epl & k & Hk & Hcapk).
+  - simpl. lia.
+  - simpl. lia.
+  - apply in_flow_children_ok; auto.
+  - apply Forall_forall. intros x Hx. apply Hin in Hx. rewrite Forall_forall in Hfits. destruct (Hfits _ Hx) as [Fc Fr].
+    intros a. destruct a; simpl; rewrite ?C3, ?R3; auto.
+  - eapply Nat.le_trans; [apply in_flow_children_length|]. auto.
+  - exact Hcap0.
+  - rewrite Epl. cbn [bind].
+    pose proof (place_grid_items_inv (in_flow_children children) m0 fl m items) as Hinv. simpl in Hinv.
+    destruct Hinv as [(Hwf & Hall & _) _]; auto; try lia.
+    { apply in_flow_children_ok; auto. } { apply in_flow_children_nodup. }
+    destruct (cap_bounds m k Horizontal Hcapk Hk) as (Hnc & ? & ? & ?).
+    destruct (cap_bounds m k Vertical Hcapk Hk) as (Hnr & ? & ? & ?). simpl in *.
+    destruct (mapM_total _ _ (report_item (m_cols m) (m_rows m)) (sort_items items)) as [rep Hrep].
+    { apply Forall_forall. intros it Hit. apply (proj1 (In_sort_items _ _)) in Hit.
+      rewrite Forall_forall in Hall. destruct (Hall it Hit) as ((N1 & N2) & _ & (I1 & I2 & I3 & I4) & _).
+      unfold report_item.
+      destruct (reported_line_total (m_cols m) (l_start (i_col it))) as [v1 E1]; auto; try (unfold endl; lia). rewrite E1. cbn [bind].
+      destruct (reported_line_total (m_cols m) (l_end (i_col it))) as [v2 E2]; auto; try (unfold endl; lia). rewrite E2. cbn [bind].
+      destruct (reported_line_total (m_rows m) (l_start (i_row it))) as [v3 E3]; auto; try (unfold endl; lia). rewrite E3. cbn [bind].
+      destruct (reported_line_total (m_rows m) (l_end (i_row it))) as [v4 E4]; auto; try (unfold endl; lia). rewrite E4. cbn [bind].
+      eauto. }
+    rewrite Hrep. cbn [bind]. eauto.
+Qed.
